@@ -217,3 +217,95 @@ pub fn box_array_copy_from_slice<T: Copy, const N: usize>(b: &mut Box<[T; N]>, s
 { b.copy_from_slice(src) }
 pub assume_specification<T, const N: usize> [<[T; N] as std::convert::AsRef<[T]>>::as_ref] (a: &[T; N]) -> (r: &[T])
     ensures r@ == a@;
+
+// ---------------------------------------------------------------------------------------------------------------------
+// R10 model of the x86 SIMD intrinsics the crate uses (TRUSTED: Intel's documented semantics, byte-wise).
+// `__m128i` / `__m256i` are modelled as 16 / 32 bytes in memory order (byte 0 = least significant byte of the register).
+// Raw-pointer loads and stores are rewritten by rule R10 into `load*/store*` on the array the pointer was derived from;
+// their preconditions are the in-bounds conditions of the original pointer arithmetic.
+pub mod simd {
+    use vstd::prelude::*;
+    pub use crate::vprelude::byte_of;
+    #[derive(Clone, Copy)]
+    pub struct __m128i { pub b: [u8; 16] }
+    #[derive(Clone, Copy)]
+    pub struct __m256i { pub b: [u8; 32] }
+
+    // _mm_loadu_si128(p.add(k)) with p = a.as_mut_ptr().cast::<__m128i>()
+    #[verifier::external_body]
+    pub fn load128(a: &[u8; 64], k: usize) -> (r: __m128i)
+        requires k < 4
+        ensures forall|n: int| 0 <= n < 16 ==> #[trigger] r.b@[n] == a@[16 * k + n]
+    { unimplemented!() }
+    #[verifier::external_body]
+    pub fn store128(a: &mut [u8; 64], k: usize, v: __m128i)
+        requires k < 4
+        ensures forall|j: int| 0 <= j < 64 ==> #[trigger] final(a)@[j] == (if 16 * k <= j < 16 * k + 16 { v.b@[j - 16 * k] } else { old(a)@[j] })
+    { unimplemented!() }
+    #[verifier::external_body]
+    pub fn load256(a: &[u8; 64], k: usize) -> (r: __m256i)
+        requires k < 2
+        ensures forall|n: int| 0 <= n < 32 ==> #[trigger] r.b@[n] == a@[32 * k + n]
+    { unimplemented!() }
+    #[verifier::external_body]
+    pub fn store256(a: &mut [u8; 64], k: usize, v: __m256i)
+        requires k < 2
+        ensures forall|j: int| 0 <= j < 64 ==> #[trigger] final(a)@[j] == (if 32 * k <= j < 32 * k + 32 { v.b@[j - 32 * k] } else { old(a)@[j] })
+    { unimplemented!() }
+    // _mm_loadu_si128(std::ptr::from_ref::<u128>(p).cast::<__m128i>()): the 16 bytes of a u128 on a little-endian machine
+    #[verifier::external_body]
+    pub fn load128_u128(p: &u128) -> (r: __m128i)
+        ensures forall|n: int| 0 <= n < 16 ==> #[trigger] r.b@[n] == byte_of(*p, n)
+    { unimplemented!() }
+
+    #[verifier::external_body]
+    pub fn _mm_set1_epi8(a: i8) -> (r: __m128i)
+        ensures forall|n: int| 0 <= n < 16 ==> #[trigger] r.b@[n] == a as u8
+    { unimplemented!() }
+    #[verifier::external_body]
+    pub fn _mm_and_si128(a: __m128i, b: __m128i) -> (r: __m128i)
+        ensures forall|n: int| 0 <= n < 16 ==> #[trigger] r.b@[n] == a.b@[n] & b.b@[n]
+    { unimplemented!() }
+    #[verifier::external_body]
+    pub fn _mm_xor_si128(a: __m128i, b: __m128i) -> (r: __m128i)
+        ensures forall|n: int| 0 <= n < 16 ==> #[trigger] r.b@[n] == a.b@[n] ^ b.b@[n]
+    { unimplemented!() }
+    // logical right shift of each 64-bit lane; specified for the one shift count the crate uses
+    #[verifier::external_body]
+    pub fn _mm_srli_epi64(a: __m128i, imm8: i32) -> (r: __m128i)
+        requires imm8 == 4
+        ensures forall|n: int| 0 <= n < 16 ==> #[trigger] r.b@[n] == (a.b@[n] >> 4) | (if n % 8 < 7 { (a.b@[n + 1] << 4) as u8 } else { 0u8 })
+    { unimplemented!() }
+    // PSHUFB
+    #[verifier::external_body]
+    pub fn _mm_shuffle_epi8(a: __m128i, b: __m128i) -> (r: __m128i)
+        ensures forall|n: int| 0 <= n < 16 ==> #[trigger] r.b@[n] == if b.b@[n] & 0x80 != 0 { 0u8 } else { a.b@[(b.b@[n] & 0x0f) as int] }
+    { unimplemented!() }
+
+    #[verifier::external_body]
+    pub fn _mm256_broadcastsi128_si256(a: __m128i) -> (r: __m256i)
+        ensures forall|n: int| 0 <= n < 32 ==> #[trigger] r.b@[n] == a.b@[n % 16]
+    { unimplemented!() }
+    #[verifier::external_body]
+    pub fn _mm256_set1_epi8(a: i8) -> (r: __m256i)
+        ensures forall|n: int| 0 <= n < 32 ==> #[trigger] r.b@[n] == a as u8
+    { unimplemented!() }
+    #[verifier::external_body]
+    pub fn _mm256_and_si256(a: __m256i, b: __m256i) -> (r: __m256i)
+        ensures forall|n: int| 0 <= n < 32 ==> #[trigger] r.b@[n] == a.b@[n] & b.b@[n]
+    { unimplemented!() }
+    #[verifier::external_body]
+    pub fn _mm256_xor_si256(a: __m256i, b: __m256i) -> (r: __m256i)
+        ensures forall|n: int| 0 <= n < 32 ==> #[trigger] r.b@[n] == a.b@[n] ^ b.b@[n]
+    { unimplemented!() }
+    #[verifier::external_body]
+    pub fn _mm256_srli_epi64(a: __m256i, imm8: i32) -> (r: __m256i)
+        requires imm8 == 4
+        ensures forall|n: int| 0 <= n < 32 ==> #[trigger] r.b@[n] == (a.b@[n] >> 4) | (if n % 8 < 7 { (a.b@[n + 1] << 4) as u8 } else { 0u8 })
+    { unimplemented!() }
+    // VPSHUFB: two independent 128-bit lanes
+    #[verifier::external_body]
+    pub fn _mm256_shuffle_epi8(a: __m256i, b: __m256i) -> (r: __m256i)
+        ensures forall|n: int| 0 <= n < 32 ==> #[trigger] r.b@[n] == if b.b@[n] & 0x80 != 0 { 0u8 } else { a.b@[(n / 16) * 16 + (b.b@[n] & 0x0f) as int] }
+    { unimplemented!() }
+}
